@@ -4,6 +4,7 @@ Imports only DialsModel.Model.* and Gen.Facts (core Lean), so it links as a `lea
 -/
 import DialsModel.Model.Proto
 import DialsModel.Model.CaseConv
+import DialsModel.Model.RuntimeIO
 
 open Dials Dials.Proto
 
@@ -42,16 +43,23 @@ def handleCC : List String → String
     | none => "bad-op"
   | _ => "bad-op"
 
-def handle (line : String) : String :=
-  match line.trimAscii.toString.splitOn " " with
-  | "cc" :: rest => handleCC rest
-  | _ => "bad-op"
+structure Session where
+  rt : Option Runtime.State := none
 
-partial def loop (h : IO.FS.Stream) (out : IO.FS.Stream) : IO Unit := do
+def handle (ss : Session) (line : String) : Session × String :=
+  match line.trimAscii.toString.splitOn " " with
+  | "cc" :: rest => (ss, handleCC rest)
+  | "rt" :: rest =>
+    let (st, out) := Runtime.handleRt ss.rt rest
+    ({ ss with rt := st }, (out.replace "\n" " "))
+  | _ => (ss, "bad-op")
+
+partial def loop (h : IO.FS.Stream) (out : IO.FS.Stream) (ss : Session) : IO Unit := do
   let line ← h.getLine
   if line.isEmpty then return ()
-  out.putStrLn (handle line)
+  let (ss', rep) := handle ss line
+  out.putStrLn rep
   out.flush
-  loop h out
+  loop h out ss'
 
-def main : IO Unit := do loop (← IO.getStdin) (← IO.getStdout)
+def main : IO Unit := do loop (← IO.getStdin) (← IO.getStdout) {}
